@@ -64,6 +64,8 @@ def cases(seed, tier):
                 while s["est_dep"] in used_e:
                     s["est_dep"] += 1
                 used_e.add(s["est_dep"])
+        if rng.random() < 0.25:
+            d["network"]["arith"] = True  # constraints assembled by Current arithmetic over the same station set (see build_network)
         out.append({"desc": d, "pseed": rng.randrange(1 << 30)})
     # corpus: a tight branch under a roomy main feeder, finite-rate stations with a non-zero minimum pilot, uninterrupted
     # charging: some session cannot get its minimum while later ones can; distinct arrivals, departures and estimates (no ties)
